@@ -136,6 +136,9 @@ def make_container(spec, seed):
     mesh = zoo.make(mk, member, seed)
     if fk.startswith("axi"):
         mesh = fem.Mesh(mesh.points + np.array([0.0, 0.6]), mesh.cells, mesh.cell_type)
+    if "@" in fk:  # the same model in another length unit (nanometre / micrometre sized parts given in metres)
+        fk, unit = fk.split("@")
+        mesh = fem.Mesh(mesh.points * dict(nm=1e-9, um=1e-6, km=1e3)[unit], mesh.cells, mesh.cell_type)
     uniform = fk.endswith("+uniform")
     fk = fk.replace("+uniform", "")
     kw = dict(uniform=True) if uniform else {}
@@ -172,6 +175,8 @@ SPECS_QUICK = [
     ("quad", "strip", "vector+uniform"), ("quad", "renum", "mixed3"), ("quad", "renum", "axi-mixed3"), ("quad", "renum", "ps-mixed3"),
     ("quad9", "ref", "mixed3"), ("triangle6", "ref", "mixed2"), ("quad", "renum", "vector+scalar"), ("tetra", "ref", "vector"),
     ("hexahedron", "strip", "scalar"), ("tetra", "ref", "scalar"),
+    # other length units (radii / coordinates far from one): nanometre-sized axisymmetric and plane parts, kilometre-sized 3D
+    ("quad", "renum", "axi@nm"), ("quad", "renum", "axi-mixed3@nm"), ("quad", "renum", "axi@um"), ("quad", "renum", "planestrain@nm"), ("tetra", "ref", "vector@km"),
 ]
 SPECS_MORE = [
     ("hexahedron", "strip", "mixed3"), ("hexahedron", "strip", "vector+uniform"), ("quad8", "ref", "vector"),
